@@ -325,6 +325,15 @@ def get_item(ex, base, key):
         g = base.nx_view[0]
         ex.require(g.N(key.t), "KeyError", "node-view")
         return VAttrs(g, key.t)
+    if isinstance(base, VSeq) and isinstance(key, VInt) and key.const() in (0, -1):
+        # first / last element of a duplicate-free sequence; IndexError when it is empty
+        ex.require(L.exists(1, lambda x: base.mem(x)), "IndexError", "getitem")
+        e = L.node("first" if key.const() == 0 else "last")
+        if key.const() == 0:
+            ex.assume(L.And(base.mem(e), L.Not(L.exists(1, lambda x: base.before(x, e)))))
+        else:
+            ex.assume(L.And(base.mem(e), L.Not(L.exists(1, lambda x: base.before(e, x)))))
+        return VNode(e)
     if isinstance(base, VDict) and isinstance(key, VNode) and base.val is not None:
         ex.require(base.dom(key.t), "KeyError", "getitem")
         return base.val(key.t)
@@ -918,6 +927,14 @@ def call_builtin(ex, name, args, kwargs):
         sets = [ex.as_set(a) for a in args]
         ar = sets[0].arity if sets else 1
         return VSet(lambda *xs: L.Or(*[s.has(*xs) for s in sets]), arity=ar, kind="list")
+    if name in ("more_itertools.triplewise", "triplewise") and len(args) == 1 and not kwargs and isinstance(args[0], VSeq):
+        # consecutive triples of a duplicate-free sequence
+        sq = args[0]
+        succ = lambda a, b: L.And(sq.before(a, b), L.Not(L.exists(1, lambda x: L.And(sq.before(a, x), sq.before(x, b)))))
+        a_, b_, c_ = L.node("t1"), L.node("t2"), L.node("t3")
+        c = VComp(None, None, None, kind="gen")
+        c.alts = [([a_, b_, c_], L.And(sq.mem(a_), sq.mem(b_), sq.mem(c_), succ(a_, b_), succ(b_, c_)), VTuple([VNode(a_), VNode(b_), VNode(c_)]))]
+        return c
     if name in ("itertools.combinations", "combinations"):
         n = args[1]
         if not (isinstance(n, VInt) and n.const() == 2):
